@@ -153,7 +153,7 @@ def run_property(pid, tier='quick', seed=0, only=None):
     known_hits = []
     undecided = []
     errors = []
-    n_obl = n_dis = 0
+    n_obl = n_dis = n_known_obl = 0
     samples = []
     per_unit = []
     trusted = set()
@@ -212,6 +212,8 @@ def run_property(pid, tier='quick', seed=0, only=None):
                         break
                 if hit is not None:
                     known_hits.append((hit, o))
+                    n_obl -= 1          # subtracted witness: the residual obligation is what is counted
+                    n_known_obl += 1
                     continue
                 dedup = (u.name, o.label, wk)
                 if dedup in seen_fail:
@@ -223,7 +225,8 @@ def run_property(pid, tier='quick', seed=0, only=None):
             errors.extend(sorted(set(guard_errors)))
         if r.bounded:
             bounded.append(r.bounded)
-            for f in r.bounded.get('failures', [])[:1]:
+            nb = 0
+            for f in r.bounded.get('failures', []):
                 # a concrete failing input on the real code
                 hit = None
                 for k in known:
@@ -231,7 +234,8 @@ def run_property(pid, tier='quick', seed=0, only=None):
                         hit = k
                 if hit is not None:
                     known_hits.append((hit, None))
-                else:
+                elif nb < 2:
+                    nb += 1
                     violations.append((u, None, dict(confirmed=True, call=f.get('call'), observed=f.get('observed')),
                                        f.get('witness')))
         per_unit.append(dict(unit=u.name, paths=r.paths, obligations=len(r.obligations),
@@ -250,9 +254,13 @@ def run_property(pid, tier='quick', seed=0, only=None):
         printed_known.add(kid)
         lines.append('KNOWN-FINDING: property=%s %s' % (pid, hit['what']))
     vcount = 0
+    per_label = {}
     for i, (u, o, rp, wk) in enumerate(violations):
         vcount += 1
         label = o.label if o is not None else 'bounded'
+        per_label[(u.name, label)] = per_label.get((u.name, label), 0) + 1
+        if per_label[(u.name, label)] > 3:
+            continue            # further witnesses of the same obligation are counted, not listed
         fname = os.path.join(replay_dir, '%s-%s-%s-%d.json' % (pid, u.name.replace('/', '_'), _safe(label), i))
         doc = dict(property=pid, unit=u.name, obligation=label,
                    functions=list(u.functions),
@@ -288,7 +296,8 @@ def run_property(pid, tier='quick', seed=0, only=None):
             solver_s=round(sum(r.solver_time for r in results), 3),
             samples=samples or [dict(note='no discharged post obligation to sample')],
             bounded=bounded,
-            known_findings=[h['what'] for h, _ in known_hits],
+            known_findings=sorted({h['what'] for h, _ in known_hits}),
+            known_finding_witnesses_subtracted=n_known_obl,
             undecided=undecided, errors=errors,
             source_sha256={os.path.relpath(k, REPO) if k.startswith(REPO) else k: v for k, v in hashes.items()},
             exhaustive=False,
